@@ -45,6 +45,7 @@ def verify_file(repo: str, relpath: str, only=None, timeout_ms: int = 10000, bot
         if only and name.split(":")[1] not in only:
             continue
         ex = Executor(src, relpath, contracts, CLASSES, te, SPEC_FUNCS, timeout_ms)
+        ex.repo = repo
         t0 = time.time()
         try:
             ex.verify(c)
